@@ -2,7 +2,7 @@
    reported-state equality, clone equivalence. *)
 From QV.lib Require Import Prelude.
 From QV.model Require Import C05_Model.
-From QV.proof Require Import C05_Proofs_Base C05_Proofs_Iter C05_Proofs_Copy C05_Proofs_Reconnect C05_Proofs_Ops.
+From QV.proof Require Import C05_Proofs_Base C05_Proofs_Iter C05_Proofs_Copy C05_Proofs_Reconnect C05_Proofs_Ops C05_Proofs_Meta.
 Set Implicit Arguments.
 
 (* reload without a device move only re-binds when module, optimiser and scheduler were
@@ -125,6 +125,7 @@ Section Main.
     - now apply clone_binding_inv.
     - now apply clone_fallback_binding_inv.
     - apply to_dev_binding. now apply copy_loaded.
+    - now apply reload_meta_binding_inv.
   Qed.
 
   Theorem binding_inv_ops w (ops : list (op R C SS)) s : binding_inv s -> binding_inv (run_ops w ops s).
